@@ -251,7 +251,7 @@ Qed.
    ci_lo <= ci_hi and both inside [min, max] of the bins' log2 *)
 Theorem ci_order_range O alpha boots vals wts lo hi : 0 < alpha -> alpha < 1 ->
   length wts = length vals -> (forall w, In w wts -> 0 < w) ->
-  idx_contract (length vals) (o_idx O) ->
+  idx_contract (length vals) (ci_resamples O boots (length vals)) ->
   ci_func O alpha boots false vals wts = Some (lo, hi) ->
   lo <= hi /\ qmin vals <= lo /\ hi <= qmax vals.
 Proof.
@@ -262,12 +262,13 @@ Proof.
   destruct (Z.of_nat (length vals) <? ci_min_k)%Z.
   - inversion H; subst lo hi. assert (In x vals) by (rewrite EV; now left).
     split; [now apply qmin_le|now apply qmax_ge].
-  - inversion H; subst lo hi. clear H.
-    assert (B : forall y, In y (boot_means vals wts (o_idx O)) -> qmin vals <= y <= qmax vals).
+  - inversion H; subst lo hi. clear H. unfold ci_dist.
+    set (M := ci_resamples O boots (length vals)) in *.
+    assert (B : forall y, In y (boot_means vals wts M) -> qmin vals <= y <= qmax vals).
     { intros y Hy. unfold boot_means in Hy. apply in_map_iff in Hy. destruct Hy as (idx & <- & Hi).
       rewrite Forall_forall in C. destruct (C idx Hi) as [Ni Fi]. now apply boot_mean_range. }
-    assert (ND : boot_means vals wts (o_idx O) <> []).
-    { unfold boot_means. destruct (o_idx O); [congruence|discriminate]. }
+    assert (ND : boot_means vals wts M <> []).
+    { unfold boot_means. destruct M; [congruence|discriminate]. }
     split.
     + apply (percentile_bounds _ _ (qmin vals) (qmax vals) ND); [lra|exact B].
     + apply (percentile_bounds _ _ (qmin vals) (qmax vals) ND); [lra|exact B].
@@ -284,10 +285,13 @@ Proof. intro N. split; [now apply qmax_In|intros; now apply qmax_ge]. Qed.
 Theorem ci_smoothed_range_refuted :
   exists O alpha boots vals wts lo,
     0 < alpha /\ alpha < 1 /\ length wts = length vals /\ (forall w, In w wts -> 0 < w) /\
-    idx_contract (length vals) (o_idx O) /\
+    idx_contract (length vals) (ci_resamples O boots (length vals)) /\
     ci_func O alpha boots true vals wts = Some (lo, lo) /\ lo < qmin vals.
 Proof.
-  exists (mkOracles O 0 (fun t _ => t) 40 [[0%nat; 1%nat]] [[-1; -1]]), (1 # 20), 100%Z,
+  (* one resample (the witness generator ignores the number of rows asked for: the clause
+     fails for every index matrix), bandwidth 1, sqrt(1/2) taken as 1, both normal draws -1 *)
+  exists (mkOracles O 0 (fun t _ => t) 40 (fun _ _ _ _ => [[0%nat; 1%nat]]) (fun _ _ _ _ => [[-1; -1]])
+                    (fun _ => 1) (fun _ => 1)), (1 # 20), 100%Z,
          [1; 1], [1 # 2; 1 # 2], 0.
   repeat split; try reflexivity.
   - intros w [<-|[<-|[]]]; reflexivity.
